@@ -486,7 +486,11 @@ pub fn prune(rep: &mut Report, tier: Tier) {
             }
             // pipeline with cached states: compose with a schema / tree, eliminate, twice
             for round in 0..2 {
-                let pick = rng.below(sh.len().min(16)); let g = if rng.chance(1, 2) { small_schema(&mut rng, m) } else { build::<2>(&mut rng, &sh[pick], m, m, false, false) };
+                let pick = rng.below(sh.len().min(16)); let mut g = if rng.chance(1, 2) { small_schema(&mut rng, m) } else { build::<2>(&mut rng, &sh[pick], m, m, false, false) };
+                // the operand may carry cached feasibility states of its own (it went through an elimination before)
+                if rng.chance(1, 2) {
+                    let _ = guarded(|| g.infeasible_elimination());
+                }
                 let before = x_of(&t).unwrap();
                 let xg = x_of(&g).unwrap();
                 let res = guarded(|| t.compose::<false, false>(&g));
@@ -602,7 +606,7 @@ pub fn prune(rep: &mut Report, tier: Tier) {
 // ------------------------------------------------------------------------------------------ C08
 
 pub fn reduce(rep: &mut Report, tier: Tier) {
-    let (n, reps) = if tier == Tier::Quick { (4, 3) } else { (5, 4) };
+    let (n, reps) = if tier == Tier::Quick { (4, 6) } else { (5, 8) };
     rep.rule = "binary trees with terminals from a tiny pool (equal siblings at several levels, siblings differing only in bias or in one coefficient); contract: function unchanged at every lattice point (no tolerance), node count does not grow, idempotent, afterwards no decision below the root has two equal terminal children, decisions with differing terminal children are kept; non-trivial: reduce removed at least one node".into();
     rep.bound = format!("shapes with <= {n} decisions (partial allowed) x {reps} seeded assignment(s), dims in {{1,2}}");
     let sh = shapes(2, n, true);
@@ -615,7 +619,20 @@ pub fn reduce(rep: &mut Report, tier: Tier) {
             }
             let mut rng = Rng::new(rep.seed ^ (idx * 86028121 + r as u64));
             let d = 1 + rng.below(2);
-            let t = build::<2>(&mut rng, s, d, 1, true, true);
+            let mut t = build::<2>(&mut rng, s, d, 1, true, true);
+            // every second case: make all terminals below a random node equal, so that merges cascade over several levels
+            if r % 2 == 1 {
+                let nodes: Vec<usize> = t.tree.node_indices().collect();
+                let top = *rng.pick(&nodes);
+                let f = term(&mut rng, d, 1, true);
+                let leaves: Vec<usize> = t.tree.terminal_indices().collect();
+                for l in leaves {
+                    let under = l == top || t.tree.path_to_node(l).unwrap().iter().any(|(p, _)| *p == top);
+                    if under {
+                        t.tree.node_value_mut(l).unwrap().aff = f.clone();
+                    }
+                }
+            }
             let before = x_of(&t).unwrap();
             let descr = before.descr();
             rep.evaluations += 1;
